@@ -16,7 +16,7 @@ import (
 
 func init() {
 	Register("C05", "Decides structural necessary conditions of 'type references resolve exactly; UsedUserTypes() lists exactly the names used': (agree) every reference position the resolvers (checker, compiler, example builder, OpenAPI) read is also read by the collector behind UsedUserTypes(); (walk) the collector descends into every node kind that has children; (dedupe) a name is appended only when it is new; (miss) every failed lookup in a type table raises ErrUserTypeNotFound with the name (the one deviant site is the recursion checker, reported under C06). Does NOT decide the iff over all reference graphs nor that unused valid types never change a result.",
-		c05agree, c05walk, c05descend, c05record, c05unnamed, compileOrderRule("C05.order"), c05dedupe, c05miss, c05rawkey, func(c *core.Ctx) { c07walkAs(c, "C05.allofwalk") }, walkKindsRule("C05.walkkinds"), unnamedOnlyRule("C05.unnamedonly"), unnamedNameRule("C05.unnamedname"), pipeSplitRule("C05.pipe"), func(c *core.Ctx) { c11onceAs(c, "C05.once") })
+		registerRule("C05.register"), c05agree, c05walk, c05descend, c05record, c05unnamed, compileOrderRule("C05.order"), c05dedupe, c05miss, c05rawkey, func(c *core.Ctx) { c07walkAs(c, "C05.allofwalk") }, walkKindsRule("C05.walkkinds"), unnamedOnlyRule("C05.unnamedonly"), unnamedNameRule("C05.unnamedname"), pipeSplitRule("C05.pipe"), func(c *core.Ctx) { c11onceAs(c, "C05.once") })
 }
 
 // reference accessors: methods through which a type name stored in the model is read.
